@@ -114,11 +114,69 @@ def knobs_async_monitor():
     return k
 
 
+def gen_permodel_scenario(rng):
+    """a structured two-/three-model case for the per-model clauses: while model 0 processes `e0`, one of its
+    callbacks (the carrier) defers events to model 0 itself and awaits a trigger on model 1, whose queue is idle — a
+    nested draining session — in which callbacks defer further events to BOTH models and (often) raise, with or
+    without `on_exception` handlers; afterwards the deferred events of model 0 must still be processed, in order"""
+    d = flat.FlatDesc()
+    nxt = [0]
+
+    def new(slot):
+        c = nxt[0]
+        nxt[0] += 1
+        d.cb_slot[c] = SLOT[slot]
+        return c
+    p, b, a = new('prepare'), new('before'), new('after')
+    x0, n1 = new('on_exit'), new('on_enter')
+    b1 = new('before')
+    d.states = [{'name': 0, 'on_enter': [], 'on_exit': [x0], 'ignore': None, 'final': False},
+                {'name': 1, 'on_enter': [n1], 'on_exit': [], 'ignore': None, 'final': False}]
+    t01 = {'source': 0, 'dest': 1, 'prepare': [p], 'conds': [], 'before': [b], 'after': [a]}
+    t10 = {'source': 1, 'dest': 0, 'prepare': [], 'conds': [], 'before': [], 'after': []}
+    d.events = [(0, [t01, t10]),
+                (1, [{'source': s, 'dest': None, 'prepare': [], 'conds': [], 'before': [b1], 'after': []} for s in (0, 1)])]
+    d.finalize = [new('finalize_event')] + ([new('finalize_event')] if rng.random() < 0.3 else [])
+    if rng.random() < 0.7:
+        d.on_exception = [new('on_exception')]
+    if rng.random() < 0.3:
+        d.prepare_event = [new('prepare_event')]
+    d.ignore = rng.choice([None, True])
+    d.queued = True
+    d.send_event = rng.random() < 0.3
+    d.models = list(range(rng.choice((2, 2, 3))))
+    order = [p, b, x0, n1, a]
+    i = rng.randrange(len(order))
+    carrier = order[i]
+    T = lambda m, e: (TRIGGER, m, e)
+    cmds = [T(0, 1)] * rng.randint(0, 2) + [T(1, 0)] + [T(0, 1)] * rng.randint(0, 2)
+    if len(d.models) > 2 and rng.random() < 0.5:
+        cmds.insert(rng.randrange(len(cmds) + 1), T(2, rng.choice((0, 1))))
+    d.script[(carrier, 0)] = (cmds, ('ret', True))
+    # invocation index of a callback inside the nested session of model 1
+    def k_nested(j):
+        return 1 if j <= i else 0
+    j = rng.randrange(len(order))
+    inner = []
+    if rng.random() < 0.6:
+        inner = [T(rng.choice((0, 1)), 1) for _ in range(rng.randint(1, 2))]
+    out = ('raise', 4 if rng.random() < 0.25 else 3, 0) if rng.random() < 0.7 else ('ret', True)
+    if inner or out != ('ret', True):
+        key = (order[j], k_nested(j))
+        if key not in d.script:
+            d.script[key] = (inner, out)
+    d.history = [T(0, 0)] + [T(rng.randrange(len(d.models)), rng.choice((0, 1))) for _ in range(rng.randint(0, 3))]
+    return d
+
+
 def gen_async_monitor(rng):
     from .. import aflat
-    d = flat.gen_flat(rng, knobs_async_monitor())
-    add_marker(d, rng)
     qm = rng.choice((1, 2, 2))
+    if rng.random() < 0.35:
+        d = gen_permodel_scenario(rng)
+    else:
+        d = flat.gen_flat(rng, knobs_async_monitor())
+        add_marker(d, rng)
     # (decorate with qmode=1: all models are kept; a callback that awaits triggers sits alone in its stage)
     aflat.decorate(d, rng, qmode=1, raise_in_stage=True, keep_kinds=(TRIGGER,))
     d.qmode = qm
